@@ -229,7 +229,9 @@ func genJoe(rng *rand.Rand, g jGen) *jScenario {
 		sc.Pubs = append(sc.Pubs, p)
 	}
 	if g.MidShutdown && rng.IntN(3) == 0 {
-		sc.Shutdowns = append(sc.Shutdowns, jShutdown{At: int64(rng.IntN(700)), Ctx: "bg"})
+		// the caller of Shutdown may stop waiting early (a context that is done already, or a short deadline)
+		ctxKind := []string{"bg", "bg", "cancelled", "deadline:5", "deadline:60", "cancelled_cause"}[rng.IntN(6)]
+		sc.Shutdowns = append(sc.Shutdowns, jShutdown{At: int64(rng.IntN(700)), Ctx: ctxKind})
 		if g.ShutdownPairs && rng.IntN(2) == 0 {
 			sc.Shutdowns = append(sc.Shutdowns, jShutdown{At: sc.Shutdowns[0].At, Ctx: "bg"}, jShutdown{At: sc.Shutdowns[0].At, Ctx: "cancelled"})
 		}
@@ -720,7 +722,7 @@ func TestC07(t *testing.T) {
 func TestC17(t *testing.T) {
 	r := fw.Start(t, "C17")
 	defer r.Finish()
-	g := jGen{ClientFaults: true, Cancels: true, ReplayerFaults: true, PanicFaults: true, Resume: true, BadIDs: true, Replayers: []string{"rec", "rec", "finite:4:manual", "finite:3:auto", "valid:manual", "valid:auto"}, MaxSubs: 5, MaxPubs: 3, MaxMsgs: 5, Latency: true, LateSubscribe: true}
+	g := jGen{ClientFaults: true, Cancels: true, ReplayerFaults: true, PanicFaults: true, Resume: true, BadIDs: true, MidShutdown: true, Replayers: []string{"rec", "rec", "finite:4:manual", "finite:3:auto", "valid:manual", "valid:auto"}, MaxSubs: 5, MaxPubs: 3, MaxMsgs: 5, Latency: true, LateSubscribe: true}
 	jLoop(t, r, "S", r.N(4000, 60000), g, 3, 4, []map[string]int64{{"loop.errsent": 60}, {"loop.sent": 35, "loop.put": 20}, {"loop.replayed": 100}}, func(sc *jScenario, tr *jTrace) []jv {
 		out := oracleDelivery(sc, tr, false)
 		out = append(out, oraclePublishReturns(tr)...)
